@@ -98,3 +98,39 @@ func DecodeStream(data []byte) (out []Msg, consumed []int, err error) {
 	}
 	return
 }
+
+// chunkReader delivers at most n bytes per Read call (a TCP stream or a buffered reader at a refill boundary hands
+// out a message in pieces).
+type chunkReader struct {
+	r    *bytes.Reader
+	n    int
+	used int
+}
+
+func (c *chunkReader) Read(p []byte) (int, error) {
+	if len(p) > c.n {
+		p = p[:c.n]
+	}
+	k, err := c.r.Read(p)
+	c.used += k
+	return k, err
+}
+
+// DecodeStreamChunked is DecodeStream over a reader that returns at most chunk bytes per Read.
+func DecodeStreamChunked(data []byte, chunk int) (out []Msg, consumed []int, err error) {
+	defer func() {
+		if r := recover(); r != nil {
+			err = fmt.Errorf("PANIC: %v", r)
+		}
+	}()
+	cr := &chunkReader{r: bytes.NewReader(data), n: chunk}
+	for cr.r.Len() > 0 {
+		x, e := msgs.ReadMessage(cr)
+		if e != nil {
+			return out, consumed, e
+		}
+		out = append(out, describe(x))
+		consumed = append(consumed, cr.used)
+	}
+	return
+}
